@@ -116,3 +116,65 @@ Definition nzQ (atol : Q) (x : Q * Q) : bool :=
 Definition find_diag_axes_Q (atol : Q) := find_diag_axes (Q * Q) (nzQ atol) (0, 0)%Q.
 Definition find_antidiag_axes_Q (atol : Q) := find_antidiag_axes (Q * Q) (nzQ atol) (0, 0)%Q.
 Definition find_columns_Q (atol : Q) := find_columns (Q * Q) (nzQ atol) (0, 0)%Q.
+
+(* ---- decision rules of the three structure passes ---------------------------------------------------------------
+   TensorNetwork.antidiag_gauge / diagonal_reduce / column_reduce (quimb/tensor/tensor_core.py), same branch structure
+   as the code.  Labels are naturals, `outs` = output_inds, `done` = the labels already flipped in this pass. *)
+Definition lmem (i : nat) (l : list nat) : bool := existsb (Nat.eqb i) l.
+
+(* antidiag_gauge, for a visited tensor whose finder answer (i, j) carries the labels ix_i = t.inds[i], ix_j = t.inds[j]:
+     if ix_i in output_inds:
+         if ix_j in output_inds: continue        # both are output indices, don't flip
+         ix_flip = ix_j
+     else: ix_flip = ix_i
+     if ix_flip in done: continue                # only flip once
+     flip(ix_flip); done.add(ix_flip)                                                        *)
+Definition ag_choose (outs done : list nat) (ix_i ix_j : nat) : option nat :=
+  let cand := if lmem ix_i outs then (if lmem ix_j outs then None else Some ix_j) else Some ix_i in
+  match cand with
+  | None => None
+  | Some f => if lmem f done then None else Some f
+  end.
+
+(* one call of the pass: `hist` = the labelled finder answers of the visited antidiagonal tensors, in visit order
+   (visits where the finder returns None change nothing); result = what is done at each visit *)
+Fixpoint ag_decisions (outs done : list nat) (hist : list (nat * nat)) : list (option nat) :=
+  match hist with
+  | [] => []
+  | (i, j) :: h =>
+      let d := ag_choose outs done i j in
+      d :: ag_decisions outs (match d with Some f => f :: done | None => done end) h
+  end.
+
+Definition somes (l : list (option nat)) : list nat :=
+  flat_map (fun o => match o with Some x => [x] | None => [] end) l.
+
+(* the labels flipped by one call, in order (`done = set()` at the start of every call) *)
+Definition ag_flips (outs : list nat) (hist : list (nat * nat)) : list nat := somes (ag_decisions outs [] hist).
+
+(* diagonal_reduce, finder answer (i, j) with labels ix_i, ix_j:  result (removed label, surviving label)
+     if ix_j in output_inds:
+         if ix_i in output_inds: continue
+         ixmap = {ix_i: ix_j}
+     else: ixmap = {ix_j: ix_i}                                                               *)
+Definition dr_choose (outs : list nat) (ix_i ix_j : nat) : option (nat * nat) :=
+  if lmem ix_j outs then (if lmem ix_i outs then None else Some (ix_i, ix_j)) else Some (ix_j, ix_i).
+
+(* column_reduce: `if ind in output_inds: continue` else isel *)
+Definition cr_choose (outs : list nat) (ind : nat) : bool := negb (lmem ind outs).
+
+(* comparison helpers for the correspondence *)
+Definition opt_nat_eqb (a b : option nat) : bool :=
+  match a, b with None, None => true | Some x, Some y => x =? y | _, _ => false end.
+Fixpoint list_eqb {A : Type} (eqb : A -> A -> bool) (l m : list A) : bool :=
+  match l, m with
+  | [], [] => true
+  | x :: l', y :: m' => eqb x y && list_eqb eqb l' m'
+  | _, _ => false
+  end.
+Definition ag_trace_ok (outs : list nat) (hist : list (nat * nat)) (observed : list (option nat)) : bool :=
+  list_eqb opt_nat_eqb (ag_decisions outs [] hist) observed.
+Definition dr_trace_ok (outs : list nat) (hist : list (nat * nat)) (observed : list (option (nat * nat))) : bool :=
+  list_eqb opt_pair_eqb (map (fun p => dr_choose outs (fst p) (snd p)) hist) observed.
+Definition cr_trace_ok (outs : list nat) (hist : list nat) (observed : list bool) : bool :=
+  list_eqb Bool.eqb (map (cr_choose outs) hist) observed.
